@@ -19,6 +19,7 @@ type c02Config struct {
 	allArrays bool
 	desc      string
 	usesNx    bool
+	usesWhere bool
 }
 
 func jsonBytes(v any) []byte {
@@ -46,6 +47,13 @@ func c02Body(tag string, kind string, withIndex bool, action string) *Block {
 		b.Stmts = append(b.Stmts, &If{C: Bin("==", V("$"), N("2")), Then: &Next{}}, Pr(S(tag+"-after")))
 	case "exit-if":
 		b.Stmts = append(b.Stmts, &If{C: Bin("==", V("$"), N("3")), Then: &Exit{}}, Pr(S(tag+"-after")))
+	case "index-elsewhere":
+		// $index and $file read inside a function and inside a match case body: the same as in the rule itself
+		b.Stmts = append(b.Stmts, Pr(S(tag+"-fn"), CallE(V("whereami")), &MatchExpr{Subj: N("1"), Cases: []*MatchCase{{Pats: []Expr{V("one")}, Body: Arr(V("$index"), V("$file"))}}}))
+	case "next-in-string-loop":
+		b.Stmts = append(b.Stmts, &ForIn{V: "ch", It: S("ab"), Body: Blk(&If{C: Bin("==", V("$"), N("2")), Then: Blk(&Next{})})}, Pr(S(tag+"-after-loop")))
+	case "exit-in-string-loop":
+		b.Stmts = append(b.Stmts, &ForIn{V: "ch", It: S("ab"), Body: Blk(&If{C: Bin("==", V("$"), N("3")), Then: Blk(&Exit{})})}, Pr(S(tag+"-after-loop")))
 	case "dollar-assign":
 		// BEGIN / END rules each start with $ null: a store into $ there is gone when the next rule starts
 		b.Stmts = append(b.Stmts, asg(V("$"), S(tag+"-was-here")), Pr(S(tag+"-now"), V("$")))
@@ -199,6 +207,15 @@ func c02Random(rng *rand.Rand) (*c02Config, string, bool) {
 			} else {
 				action = "dollar-assign"
 			}
+		case 6:
+			if k == "pattern" && allArr {
+				action = "index-elsewhere"
+				cfg.usesWhere = true
+			}
+		case 7:
+			if k == "pattern" {
+				action = []string{"next-in-string-loop", "exit-in-string-loop"}[rng.IntN(2)]
+			}
 		}
 		if k == "pattern" {
 			npat++
@@ -265,6 +282,9 @@ func (cfg *c02Config) program() *Program {
 	p := &Program{}
 	if cfg.usesNx {
 		p.Items = append(p.Items, &Func{Name: "nx", Params: []string{"v"}, Body: Blk(&If{C: Bin("==", V("v"), N("2")), Then: Blk(&Next{})}, &Return{X: N("1")})})
+	}
+	if cfg.usesWhere {
+		p.Items = append(p.Items, &Func{Name: "whereami", Body: Blk(&Return{X: Arr(V("$index"), V("$file"))})})
 	}
 	for _, r := range cfg.rules {
 		p.Items = append(p.Items, r)
